@@ -89,6 +89,18 @@ def gen_base(rng, i):
         s = rng.choice([1e-300, 1e-308, 5e-324, 1e-140, 1e-100])
         rhoL, PL = rhoL * s, PL * s
         tag = "tiny" if s >= 1e-140 and rhoL > 0 and PL > 0 else "extreme"   # ratios beyond 1e300 overflow 1/P: outside the domain, correspondence only
+    if mode == 11 and i % 24 == 11:
+        # shear layer: the same density, pressure and (bitwise) normal velocity on both sides, different tangential velocities;
+        # the normal is a coordinate axis so that u.n is exactly the stored component
+        ax = rng.below(3)
+        n = [1.0 if k == ax else 0.0 for k in range(3)]
+        if rng.below(2):
+            n = [-x for x in n]
+        vn = aL * rng.choice([0.0, 0.3, -0.3, 1.0, -2.0]) * (0.5 + rng.uniform())
+        uL = [vn * n[k] if k == ax else aL * (2 * rng.uniform() - 1) for k in range(3)]
+        uR = [vn * n[k] if k == ax else aL * (2 * rng.uniform() - 1) for k in range(3)]
+        rhoR, PR = rhoL, PL
+        tag = "shear"
     vf_ = [0.0, 0.0, 0.0]
     r = rng.below(4)
     if r == 1:
@@ -243,6 +255,9 @@ def run(ck):
         dict(tag="vacR", gamma=1.4, L=(1.0, [-0.3, 0.1, 0.0], 1.0), R=(0.0, [0.0, 0.0, 0.0], 0.0), n=[0.0, 1.0, 0.0], vface=[0.0, 0.0, 0.0]),
         dict(tag="vacgen", gamma=5.0 / 3.0, L=(1.0, [-9.0, 0.0, 0.0], 1.0), R=(1.0, [11.0, 0.0, 0.0], 1.0), n=[1.0, 0.0, 0.0], vface=[0.0, 0.0, 0.0]),
     ]
+    # shear layer: identical density, pressure and normal velocity, opposite tangential velocities (the upwind side decides which one is advected)
+    corpus.append(dict(tag="shear", gamma=5.0 / 3.0, L=(1.0, [0.5, 0.3, 0.0], 1.0), R=(1.0, [-0.5, 0.3, 0.0], 1.0), n=[0.0, 1.0, 0.0], vface=[0.0, 0.0, 0.0]))
+    corpus.append(dict(tag="shear", gamma=1.4, L=(2.0, [-0.7, 0.2, 0.4], 0.5), R=(2.0, [-0.7, -0.6, 0.1], 0.5), n=[-1.0, 0.0, 0.0], vface=[0.0, 0.0, 0.0]))
     ncorpus = 0
     for c in corpus:
         for kind in ("H", "E"):
